@@ -278,7 +278,10 @@ def otherSites : List (String × String × OpKind × String) := [
   ("future", "get_promise", OpKind.xchg, "_awaiter"),
   ("promise", "~promise<T>", OpKind.load, "_owner"), ("promise", "claim", OpKind.xchg, "_owner"),
   ("async::co_awaiter", "await_ready", OpKind.load, "_awaiter"), ("async::co_awaiter", "await_suspend", OpKind.store, "_awaiter"),
-  ("generator::promise_type", "unblock_sync", OpKind.notify, "_block"), ("generator::promise_type", "next_sync", OpKind.store, "_block")
+  ("generator::promise_type", "unblock_sync", OpKind.notify, "_block"), ("generator::promise_type", "next_sync", OpKind.store, "_block"),
+  -- the learned frame size of `scheduler::start` (a hint that only sizes an `alloca`; every call works on its own copy, nothing is
+  -- published through it, so relaxed suffices).  A plain member until /repo fix 549691b: concurrent first calls of `start()` raced.
+  ("scheduler", "start", OpKind.load, "_elide_state"), ("scheduler", "start", OpKind.store, "_elide_state")
 ]
 
 def siteInProtocols (s : Site) : Bool :=
